@@ -334,6 +334,7 @@ def replay_form(case, runner):
     c = dict(case)
     s2 = {k: v for k, v in sc.items() if k in ("step_cost_us", "oversleep",
                                                  "seed", "clock_jumps")}
+    # (stalls are recorded inside the decision list)
     s2["kind"] = "replay"
     s2["decisions"] = [list(d) for d in runner.det.decisions]
     s2["from"] = sc.get("kind")
